@@ -43,6 +43,10 @@ class Other:
     pass
 
 
+class ArgMutated(Exception):
+    pass
+
+
 class StrSub(str):
     pass
 
@@ -209,10 +213,20 @@ def modify(u, name, args):
     if name == "with_path":
         return u.with_path(dec(args[0]), encoded=dec_bool(args[1]), keep_query=dec_bool(args[2]), keep_fragment=dec_bool(args[3]))
     if name in ("with_query", "extend_query", "update_query"):
+        import copy
         a, kw = dec_qarg(args[0])
-        if name == "update_query" and len(a) == 1 and not kw and len(args[0]) % 2 == 0:
-            return u % a[0]          # the operator form is documented as the same operation
-        return getattr(u, name)(*a, **kw)
+        a0, kw0 = copy.deepcopy(a), copy.deepcopy(kw)
+        try:
+            if name == "update_query" and len(a) == 1 and not kw and len(args[0]) % 2 == 0:
+                return u % a[0]          # the operator form is documented as the same operation
+            return getattr(u, name)(*a, **kw)
+        finally:
+            # "the argument is never mutated" (C12): compare with the deep copy taken before the call
+            same = (kw == kw0) and len(a) == len(a0) and all(
+                (type(x) is type(y)) and (list(x.items()) == list(y.items()) if hasattr(x, "items") else (x == y or (x != x and y != y) or type(x).__name__ == "Other"))
+                for x, y in zip(a, a0))
+            if not same:
+                raise ArgMutated()
     if name == "without_query_params":
         return u.without_query_params(*[dec(a) for a in args])
     if name == "with_fragment":
@@ -302,6 +316,21 @@ def handle_url(f, backend):
         u, v = get(f[1]), get(f[2])
         if u is None or v is None:
             return "!dead"
+        # "never holds against non-URL objects" (C10): equality with a str / bytes / None / tuple of the parts is False,
+        # inequality True, ordering against them raises TypeError
+        try:
+            su = str(u)
+        except ValueError:
+            su = "http://unprintable/"
+        for other in (su, su.encode("ascii", "ignore"), None, 0, (u._scheme, u._netloc, u._path, u._query, u._fragment)):
+            if (u == other) is not False or (u != other) is not True or (other == u) is not False:
+                return "!eq-nonurl"
+            for opf in (lambda x, y: x < y, lambda x, y: x <= y, lambda x, y: x > y, lambda x, y: x >= y):
+                try:
+                    opf(u, other)
+                    return "!order-nonurl"
+                except TypeError:
+                    pass
         return enc_bool(u == v) + enc_bool(u < v) + enc_bool(u <= v) + enc_bool(u > v) + enc_bool(u >= v) + enc_bool(hash(u) == hash(v))
     if op == "rt":
         u = get(f[2])
